@@ -167,7 +167,11 @@ def check(ctx, triples, binary=None, tag=""):
         disk = {"key_file": t["present"] in ("both", "no-cert", "corrupt-cert"),
                 "cert_file": t["present"] in ("both", "no-key", "corrupt-cert"), "cert": cert}
         obs = i.get("ok_ns") if ok and "ok_ns" in i else None
-        jin.append({"op": "c06", "disk": disk, "ids": ids_norm, "delay_ns": str(t["delay_s"] * NS),
+        # the configured identifiers in their canonical form as the GENERATOR knows it (lower-case A-labels,
+        # RFC 5952 IP text) — not as the code under test normalised them: a certificate that covers them must
+        # not be renewed at once, however the configuration spells them
+        ids_for_judge = [x["norm"] for x in t["ids"]] if all("norm" in x for x in t["ids"]) else ids_norm
+        jin.append({"op": "c06", "disk": disk, "ids": ids_for_judge, "delay_ns": str(t["delay_s"] * NS),
                     "rer_ns": str(t["rer_s"] * NS), "slack_ns": str(2 * NS), "observed_ns": obs})
     verdicts = vlib.model(jin)
     for t, i, j, v in zip(triples, impl, jin, verdicts):
